@@ -4,6 +4,9 @@ import CogentModel.Proofs.AtomicWriteLemmas
 import CogentModel.Proofs.ComposableLemmas
 import CogentModel.Model.StoreWrite
 import CogentModel.Proofs.StoreWriteLemmas
+import CogentModel.Model.AtomicProg
+import CogentModel.Proofs.AtomicProgLemmas
+import CogentModel.Gen.C19Program
 /-! # C19 — file writes are all-or-nothing; interrupted runs resume to the same result
 
 `j.cfg` (`Job.cfg`) is THE model of the code as it is now: one-call commit (`src.replace(dest)`),
@@ -246,6 +249,101 @@ example :
     resumed .atomicMd5First idOf app s0 [7, 8, 9] 1 1 8 = uninterrupted .atomicMd5First idOf app s0 [7, 8, 9] 8 ∧
     (uninterrupted .atomicMd5First idOf app s0 [7, 8, 9] 8).nc = .full (app 8) ∧
     (StoreWrite.exec s0 (crashOps .atomicMd5First idOf app s0 [7, 8, 9] 1 1) 8).nc = .absent := by decide
+
+/-! ## the program TRANSLATED from the source (translator/c19_atomic2lean.py → Gen/C19Program.lean)
+
+`Gen.C19Program.code` is rewritten on every run from the AST of util/io.py: the control structure (sequencing, try /
+except-reraise, suppress, try / finally, the state tests) around the file-system calls of `atomic_write.__init__`,
+`__enter__`, `__exit__` with the class's own method calls inlined.  `AtomicProg.runWith` is Python's with-statement
+protocol over that code under one injected fault.  The theorems below connect it — for every job, every chunk
+list, every fault position — to the flat `program` / `faultTrace` / handler table that the crash and fault theorems
+above are about, so the handler table is no longer an independent hand-written input. -/
+section translated
+open CogentModel.AtomicProg
+
+/-- the translated code IS the hand model of the class (any semantic edit of `__init__`, `_make_tmppath`, `__enter__`,
+`_get_fileobj`, `_cleanup`, `_close_rename_*`, `__exit__` changes the left-hand side) -/
+theorem translated_code_is_model : Gen.C19Program.code = AtomicProg.hand := rfl
+
+/-- the translated write list of `DataStoreDirectory._write` is THE model of the store write (`atomicMd5First`:
+md5 first, record last, each by one rename out of a private temp dir), for every result -/
+theorem translated_store_write_is_model (v : Val) :
+    blockOfWrites v Gen.C19Program.storeWrites = some (block .atomicMd5First v) := by
+  cases h : v.isOk <;> simp [Gen.C19Program.storeWrites, blockOfWrites, opsOfWrite, block, h]
+
+/-- **no fault**: the translated code issues exactly the flat program (plain and zip-member targets; every chunk list)
+and returns normally -/
+theorem translated_run_is_program (j : Job) :
+    runWith Gen.C19Program.code j.cfg true none = ⟨program j.cfg, false, none⟩ := by
+  rw [translated_code_is_model]; exact runWith_hand_none j.cfg rfl
+
+/-- **the handler table is derived**: whichever call `k` of the program raises, the translated code issues exactly
+`faultTrace j.cfg k` — the first `k` calls, the failing one, then the handler-table entry of its phase — and the
+exception reaches the caller unless the failing call is the last one (`rmtree(…, ignore_errors=True)`). -/
+theorem translated_fault_is_handler_table (j : Job) (hz : j.zipMember = none) (hcb : j.closeInBody = false)
+    (k : Nat) (hk : k < (program j.cfg).length) :
+    runWith Gen.C19Program.code j.cfg true (some k) =
+      ⟨faultTrace j.cfg k, decide (k + 1 < (program j.cfg).length), none⟩ := by
+  rw [translated_code_is_model]; exact runWith_hand_fault j.cfg hz rfl rfl rfl rfl hcb k hk
+
+/-- the same for a zip-member target; the failing open of the archive (call `n + 3`) is swallowed by `zipfile`'s own
+retry, the failing cleanup (call `n + 5`) by `ignore_errors` -/
+theorem translated_fault_is_handler_table_zip (j : Job) (m : Nat) (hz : j.zipMember = some m) (hcb : j.closeInBody = false)
+    (k : Nat) (hk : k < (program j.cfg).length) :
+    runWith Gen.C19Program.code j.cfg true (some k) =
+      ⟨faultTrace j.cfg k, decide (k ≠ j.chunks.length + 3 ∧ k ≠ j.chunks.length + 5), none⟩ := by
+  rw [translated_code_is_model]; exact runWith_hand_fault_zip j.cfg m hz rfl rfl rfl hcb k hk
+
+/-- the `tmpdir=` route of the translated code is `programTmp … unlinkFile` (no mkdtemp, only the temp file removed) -/
+theorem translated_tmpdir_route (j : Job) (hz : j.zipMember = none) :
+    runWith Gen.C19Program.code j.cfg false none = ⟨programTmp j.cfg .unlinkFile, false, none⟩ := by
+  rw [translated_code_is_model]; exact runWith_hand_tmpdir_none j.cfg hz
+
+/-- **OSError at EVERY call, including the final cleanup** (the fault theorem above stops before it): if the write
+raises, the destination keeps its previous content (or absence) and nothing is left under the temp dir; if it
+returns normally although a call failed, the destination holds the complete new content. -/
+theorem fault_at_every_call_outcome (j : Job) (fs : FS) (h : WF j.cfg fs) (hz : j.zipMember = none)
+    (hcb : j.closeInBody = false) (k : Nat) (hk : k < (program j.cfg).length) :
+    ((runWith Gen.C19Program.code j.cfg true (some k)).raised = true →
+      faultState j.cfg fs k j.cfg.dest = fs j.cfg.dest ∧ ∀ p, under j.cfg.tmpdir p = true → faultState j.cfg fs k p = none) ∧
+    ((runWith Gen.C19Program.code j.cfg true (some k)).raised = false →
+      faultState j.cfg fs k j.cfg.dest = some (.file j.cfg.newData)) := by
+  rw [translated_fault_is_handler_table j hz hcb k hk]
+  have hz' : j.cfg.zipMember = none := hz
+  have hlen : (program j.cfg).length = j.cfg.chunks.length + 5 := by simp [program_replace j.cfg hz' rfl, writes]
+  constructor
+  · intro hr
+    exact fault_leaves_old_and_no_temp j fs h hz k (by simpa using hr)
+  · intro hr
+    have hk' : k = j.cfg.chunks.length + 4 := by
+      have : ¬ (k + 1 < (program j.cfg).length) := by simpa using hr
+      omega
+    subst hk'
+    unfold faultState
+    rw [phaseAt_last_replace j.cfg hz' rfl]
+    simp only [handler, AtomicWrite.exec]
+    exact crash_replace_after j.cfg fs h hz' rfl _ (by rw [pre_length]; omega)
+
+example : (runWith Gen.C19Program.code exCfg true (some 6)).raised = false ∧
+    (runWith Gen.C19Program.code exCfg true (some 5)).raised = true ∧
+    faultState exCfg exFS 6 [0, 1] = some (.file [5, 6, 7]) ∧ faultState exCfg exFS 5 [0, 1] = some (.file [9]) := by decide
+
+/-- **formatting failure** (the writer's own code raises inside its with-block after any number `n` of chunks, no
+file-system call fails): the translated code closes the temp file, does not commit and removes the temp dir; no call
+fails, the destination and every path outside the temp dir are untouched, nothing under the temp dir remains. -/
+theorem formatting_failure_leaves_old_and_no_temp (j : Job) (fs : FS) (h : WF j.cfg fs) (hcb : j.closeInBody = false) (n : Nat) :
+    runWithBody Gen.C19Program.code j.cfg true (fmtFailBody j.cfg n) none = ⟨fmtFailTrace j.cfg n, true, none⟩ ∧
+    (AtomicWrite.exec fs (fmtFailTrace j.cfg n)).2 = none ∧
+    (AtomicWrite.exec fs (fmtFailTrace j.cfg n)).1 j.cfg.dest = fs j.cfg.dest ∧
+    (∀ p, under j.cfg.tmpdir p = true → (AtomicWrite.exec fs (fmtFailTrace j.cfg n)).1 p = none) ∧
+    (∀ p, under j.cfg.tmpdir p = false → (AtomicWrite.exec fs (fmtFailTrace j.cfg n)).1 p = fs p) := by
+  rw [translated_code_is_model]
+  exact ⟨runWith_hand_fmtfail j.cfg hcb n, fmtfail_state j.cfg fs h n⟩
+
+example : (AtomicWrite.exec exFS (fmtFailTrace exCfg 1)).1 [0, 1] = some (.file [9]) ∧
+    (AtomicWrite.exec exFS (fmtFailTrace exCfg 1)).1 [0, 2] = none ∧ (fmtFailTrace exCfg 1).length = 5 := by decide
+
+end translated
 
 /-! ## historical variants (NOT the current code)
 
